@@ -264,6 +264,29 @@ def check_window_object(name, N, kw):
             bad.append(('window_object/%s/enbw' % GEN_OF[name], 'Window(%d, %r, **%r).enbw = %r, N sum w^2/(sum w)^2 = %r' % (N, name, kw, wo.enbw, e)))
     if wo.name != name:
         bad.append(('window_object/%s/name' % GEN_OF[name], 'Window(...).name = %r' % (wo.name,)))
+    if bad or not np.all(np.isfinite(w)):
+        return bad
+    # "the Window object reports the same samples, length and ENBW" also AFTER its other read-only services were used:
+    # frequency response (cached, normalised or not), frequency axis, textual summary, mean square
+    e0 = wo.enbw
+    for what, f in (('response', lambda: wo.response), ('frequencies', lambda: wo.frequencies),
+                    ('compute_response()', lambda: wo.compute_response()), ('compute_response(norm=False)', lambda: wo.compute_response(norm=False)),
+                    ('compute_response(NFFT=64)', lambda: wo.compute_response(NFFT=64)), ('str()', lambda: str(wo)),
+                    ('mean_square', lambda: wo.mean_square), ('enbw', lambda: wo.enbw)):
+        try:
+            f()
+        except Exception as e:
+            bad.append(('window_object_after_use/%s/raises' % GEN_OF[name], 'Window(%d, %r, **%r): %s raised %r' % (N, name, kw, what, e)))
+            break
+        if not (np.shape(wo.data) == np.shape(w) and np.array_equal(wo.data, w, equal_nan=True)) or wo.N != N:
+            bad.append(('window_object_after_use/%s/data' % GEN_OF[name], 'Window(%d, %r, **%r).data no longer equals create_window after %s was used' % (N, name, kw, what)))
+            break
+        if not (wo.enbw == e0 or (wo.enbw != wo.enbw and e0 != e0)):          # (a window whose samples sum to 0 has ENBW nan)
+            bad.append(('window_object_after_use/%s/enbw' % GEN_OF[name], 'Window(%d, %r, **%r).enbw changed after %s was used' % (N, name, kw, what)))
+            break
+    ms = float(np.sum(np.asarray(w, dtype=float) ** 2) / N)
+    if not bad and not abs(wo.mean_square - ms) <= 1e-12 * max(ms, 1e-300):
+        bad.append(('window_object_after_use/%s/mean_square' % GEN_OF[name], 'Window(%d, %r).mean_square = %r, sum w^2 / N = %r' % (N, name, wo.mean_square, ms)))
     return bad
 
 
